@@ -80,10 +80,10 @@ def plan(ctx):
     return runs
 
 
-def run_worker(ctx, name, recs):
-    """Replay (tag, record) pairs in a restartable subprocess. Returns (results, crashes)."""
-    inp = ctx.scratch / ('c15_%s.in.jsonl' % name)
-    outp = ctx.scratch / ('c15_%s.out' % name)
+def run_worker(ctx, name, recs, module='harness.c15_worker'):
+    """Replay (tag, record) pairs in a restartable subprocess. Returns (results, late, crashes)."""
+    inp = ctx.scratch / ('w_%s.in.jsonl' % name)
+    outp = ctx.scratch / ('w_%s.out' % name)
     with open(inp, 'w') as f:
         for tag, v in recs:
             f.write(json.dumps({'tag': tag, 'v': v}) + '\n')
@@ -91,7 +91,7 @@ def run_worker(ctx, name, recs):
         outp.unlink()
     start, crashes, restarts = 0, [], 0
     while True:
-        p = subprocess.run([PY, '-m', 'harness.c15_worker', str(inp), str(outp), str(start)], cwd=VERIF,
+        p = subprocess.run([PY, '-m', module, str(inp), str(outp), str(start)], cwd=VERIF,
                            env=repo_env(), stdout=subprocess.PIPE, stderr=subprocess.STDOUT, text=True)
         lines = outp.read_text().splitlines() if outp.exists() else []
         if lines and lines[-1] == 'E' and p.returncode == 0:
@@ -101,6 +101,8 @@ def run_worker(ctx, name, recs):
         if not begun:
             raise MachineryError('replay worker for %s did not start:\n%s' % (name, p.stdout[-3000:]))
         cur = begun[-1]
+        if p.returncode > 0:     # a Python-level failure of the worker itself (signals give negative codes)
+            raise MachineryError('replay worker for %s failed (rc=%s):\n%s' % (name, p.returncode, p.stdout[-3000:]))
         if cur in done:          # died between cases: not attributable to the code under test
             raise MachineryError('replay worker for %s failed outside a case (rc=%s):\n%s'
                                  % (name, p.returncode, p.stdout[-3000:]))
@@ -112,8 +114,11 @@ def run_worker(ctx, name, recs):
         crashes.append((cur, p.returncode, st, p.stdout[-1500:]))
         start = cur + 1
         restarts += 1
-        if restarts > 25:
-            raise MachineryError('replay worker for %s keeps dying:\n%s' % (name, p.stdout[-3000:]))
+        if restarts > 12:      # every one of them is reported as a violation; the rest of this run is dropped
+            ctx.skip('%s: replay stopped after %d interpreter crashes, %d cases not replayed'
+                     % (name, restarts, len(recs) - start))
+            lines = outp.read_text().splitlines()
+            break
     results = [json.loads(l[2:]) for l in lines if l.startswith('R ')]
     late = [json.loads(l[2:]) for l in lines if l.startswith('V ')]
     inp.unlink()
